@@ -14,3 +14,69 @@ package loadbalancer
 //@   invariant lowb: j == 0 ==> b == -1
 //@   invariant nonneg: j > 0 ==> b >= 0
 //@   decreases numBuckets - j
+
+// ---------------------------------------------------------------------------------------------------
+// Strategies. The abstract view of a strategy is the sequence of *Backend it holds (its backends slice).
+
+//@ pred inWindow(b *Backend, t Time) := !b.IsHealthy && t <= b.UnhealthyUntil
+//@ pred conns(b *Backend) int := b.ActiveConnections
+
+// ---- round robin
+//@ pred rrDistinct(rr *RoundRobinStrategy) := forall i int :: forall j int :: 0 <= i && i < j && j < len(rr.backends) ==> rr.backends[i] != rr.backends[j]
+//@ pred rrNonNil(rr *RoundRobinStrategy) := forall i int :: {rr.backends[i]} 0 <= i && i < len(rr.backends) ==> rr.backends[i] != nil
+
+//@ func (*RoundRobinStrategy).NextBackend
+//@   props C02 C05
+//@   requires unlocked(rr.mutex)
+//@   ensures empty: len(rr.backends) == 0 ==> result == nil && rr.current == old(rr.current)
+//@   ensures ticket: len(rr.backends) > 0 ==> rr.current == (old(rr.current) + 1) % 18446744073709551616
+//@   ensures rotation: len(rr.backends) > 0 ==> result == rr.backends[rr.current % len(rr.backends)]
+//@   ensures member: result != nil ==> exists i int :: 0 <= i && i < len(rr.backends) && rr.backends[i] == result
+//@   modifies rr.current
+
+//@ func (*RoundRobinStrategy).AddBackend
+//@   props C11
+//@   requires unlocked(rr.mutex)
+//@   ensures appended: len(rr.backends) == old(len(rr.backends)) + 1 && rr.backends[old(len(rr.backends))] == backend
+//@   ensures kept: forall i int :: {rr.backends[i]} 0 <= i && i < old(len(rr.backends)) ==> rr.backends[i] == old(rr.backends[i])
+//@   modifies rr.backends, elems(rr.backends)
+
+//@ func (*RoundRobinStrategy).RemoveBackend
+//@   props C11
+//@   requires unlocked(rr.mutex) && rrDistinct(rr)
+//@   ensures absent_unchanged: (forall i int :: 0 <= i && i < old(len(rr.backends)) ==> old(rr.backends[i]) != backend)
+//@             ==> len(rr.backends) == old(len(rr.backends)) && (forall i int :: {rr.backends[i]} 0 <= i && i < len(rr.backends) ==> rr.backends[i] == old(rr.backends[i]))
+//@   ensures removed: (exists i int :: 0 <= i && i < old(len(rr.backends)) && old(rr.backends[i]) == backend)
+//@             ==> len(rr.backends) == old(len(rr.backends)) - 1 && (forall i int :: {rr.backends[i]} 0 <= i && i < len(rr.backends) ==> rr.backends[i] != backend)
+//@   ensures others_kept: forall j int :: {old(rr.backends[j])} 0 <= j && j < old(len(rr.backends)) && old(rr.backends[j]) != backend
+//@             ==> exists i int :: 0 <= i && i < len(rr.backends) && rr.backends[i] == old(rr.backends[j])
+//@   ensures nothing_new: forall i int :: {rr.backends[i]} 0 <= i && i < len(rr.backends) ==> exists j int :: 0 <= j && j < old(len(rr.backends)) && rr.backends[i] == old(rr.backends[j])
+//@   modifies rr.backends, elems(rr.backends)
+//@ loop (*RoundRobinStrategy).RemoveBackend #0
+//@   props C11
+//@   invariant idx: -1 <= rangeindex && rangeindex < len(rr.backends)
+//@   invariant notfound: forall k int :: {rr.backends[k]} 0 <= k && k <= rangeindex ==> rr.backends[k] != backend
+//@   decreases len(rr.backends) - rangeindex
+
+//@ func (*RoundRobinStrategy).GetBackends
+//@   props C11
+//@   requires unlocked(rr.mutex)
+//@   ensures copy: len(result) == len(rr.backends) && (forall i int :: {result[i]} 0 <= i && i < len(result) ==> result[i] == rr.backends[i])
+//@   ensures fresh_copy: len(result) > 0 ==> fresh(result.base)
+
+// ---- least connections
+//@ func (*LeastConnectionsStrategy).NextBackend
+//@   props C02 C05
+//@   requires unlocked(lc.mutex)
+//@   requires forall i int :: {lc.backends[i]} 0 <= i && i < len(lc.backends) ==> lc.backends[i] != nil
+//@   ensures empty: len(lc.backends) == 0 ==> result == nil
+//@   ensures member: result != nil ==> exists i int :: 0 <= i && i < len(lc.backends) && lc.backends[i] == result
+//@   ensures minimal: result != nil ==> forall i int :: {lc.backends[i]} 0 <= i && i < len(lc.backends) ==> conns(result) <= conns(lc.backends[i])
+//@   ensures picks_one: result == nil && len(lc.backends) > 0 ==> forall i int :: {lc.backends[i]} 0 <= i && i < len(lc.backends) ==> conns(lc.backends[i]) == 2147483647
+//@ loop (*LeastConnectionsStrategy).NextBackend #0
+//@   props C02 C05
+//@   invariant idx: -1 <= rangeindex && rangeindex < len(lc.backends)
+//@   invariant lower: forall k int :: {lc.backends[k]} 0 <= k && k <= rangeindex ==> minConnections <= conns(lc.backends[k])
+//@   invariant attained: selectedBackend != nil ==> conns(selectedBackend) == minConnections && (exists k int :: 0 <= k && k <= rangeindex && lc.backends[k] == selectedBackend)
+//@   invariant none_yet: selectedBackend == nil ==> minConnections == 2147483647
+//@   decreases len(lc.backends) - rangeindex
